@@ -124,6 +124,8 @@ class _Inline(_InternalNode):
         }
 
     def propagate_values(self) -> Dict[str, _value_prop.PropValueType]:
+        if _value_prop._VALUE_PROP_BACKEND == _value_prop.ValuePropBackend.NONE:
+            return {}
         if any(
             var.type is None or var._value is None
             for var in self.inputs.get_vars().values()
